@@ -145,3 +145,8 @@ if (true) {
     assert_eq!(actual, expected);
   }
 }
+
+#[cfg(feature = "verif-hooks")]
+pub mod verif_hooks {
+  pub use super::transformation::verif_hooks as transformation;
+}
